@@ -298,7 +298,7 @@ class Generator:
 
         def fresh():
             return {"ret": None, "spec": [], "loops": {}, "inserts": [], "attr": [], "members": [], "drops": [], "body": None,
-                    "closures": [], "flags": []}
+                    "closures": [], "flags": [], "preloops": {}}
 
         opts = fresh()
         main_opts = opts
@@ -324,6 +324,8 @@ class Generator:
                 opts["members"] = payload
             elif words[0] == "loop":
                 opts["loops"][int(words[1])] = payload
+            elif words[0] == "preloop":
+                opts["preloops"][int(words[1])] = payload
             elif words[0] == "insert":
                 m = re.match(r"insert\s+(before|after)\s+(\d+)\s+`(.*)`\s*$", h)
                 if not m:
@@ -445,6 +447,11 @@ class Generator:
             if not re.search(r"derive\s*\([^)]*\bCopy\b", derives):
                 raise ShapeError("%s: unit keeps #[derive(Clone, Copy)] but the type no longer derives Copy" % unit.name)
             w.emit("#[derive(Clone, Copy)]\n")
+        if "derive_eq" in unit.flags:
+            derives = " ".join(text_of(src, a, b) for a, b in item.attrs)
+            if not re.search(r"derive\s*\([^)]*\bPartialEq\b", derives):
+                raise ShapeError("%s: unit keeps #[derive(PartialEq, Eq)] but the type no longer derives PartialEq" % unit.name)
+            w.emit("#[derive(PartialEq, Eq)]\n")
         # T1: visibility -> pub
         w.emit("pub ")
         end = item.close + 1
@@ -795,6 +802,12 @@ class Generator:
                 raise ShapeError("%s: number of loops changed (now %d)" % (unit.name, len(loops)))
         elif any(f.startswith("loops=") for f in flags) and "loops=%d" % len(loops) not in flags:
             raise ShapeError("%s: number of loops changed (now %d)" % (unit.name, len(loops)))
+        for n, payload in opts.get("preloops", {}).items():
+            if n > len(loops):
+                raise ShapeError("%s: unit annotates loop %d but the body has %d loops" % (unit.name, n, len(loops)))
+            kw, opn = loops[n - 1]
+            edits.append((kw, kw, " " + "\n".join(payload).strip("\n") + " "))
+            unit.insertions.append("before loop %d: ghost declarations" % n)
         for n, payload in want.items():
             kw, opn = loops[n - 1]
             txt = "\n" + "\n".join(payload) + "\n"
